@@ -111,6 +111,14 @@ def reader_layout(ctx, cfg, fn, agg_suffix, param='bytes'):
                 d = zf.single_def(l)
                 if d is None:
                     break
+                if d[0] == 'call':
+                    # an infallible decoder called directly on a sub-slice: Integer::from_digits(&bytes[a..b], ..)
+                    for a in d[2]['args']:
+                        if a['k'] in ('copy', 'move'):
+                            o = zf.slice_origin(zf.desc_place(a['pl']))
+                            if o is not None and o[0][0] == 'cont' and o[0][1] == k and not o[0][2] and o[1] is not None:
+                                rng = (tfmt(o[1]), tfmt(o[2]) if o[2] is not None else None)
+                    break
                 if d[0] == 'assign' and d[2]['rv']['k'] == 'use' and d[2]['rv']['op']['k'] in ('copy', 'move'):
                     pl = d[2]['rv']['op']['pl']
                     if pl.get('p') and any(p['k'] == 'downcast' for p in pl['p']):
@@ -862,3 +870,44 @@ def ZoneSum(a, b):
     if b[0] is None:
         return (a[0], a[1] + b[1])
     return None
+
+
+def rule_cl03_signature_codec(ctx, cfg='prod-all'):
+    """CL03 signature octets: the reader takes e, s and v from the offsets at which the writer puts them (e: le octets, s: ls octets, v: the rest)."""
+    prog = ctx.prog(cfg)
+    w = [p for p in prog.bodies if p.startswith('cl03::signature::') and p.endswith('>::to_bytes')]
+    r = [p for p in prog.bodies if p.startswith('cl03::signature::') and p.endswith('>::from_bytes')]
+    if len(w) != 1 or len(r) != 1:
+        raise AnchorMissing('CL03 signature codec functions')
+    wl = writer_layout(ctx, cfg, w[0])
+    rl = reader_layout(ctx, cfg, r[0], 'CL03Signature')
+
+    def parse(sx):
+        if sx is None:
+            return None
+        if sx.lstrip('-').isdigit():
+            return (None, int(sx))
+        if '+' in sx and sx.rsplit('+', 1)[1].isdigit():
+            return (sx.rsplit('+', 1)[0], int(sx.rsplit('+', 1)[1]))
+        return (sx, 0)
+    off = (None, 0)
+    exp = {}
+    for f, width, kind in wl:
+        if kind != 'append' or len(f) != 1 or off is None:
+            off = None
+            break
+        wt = parse(width)
+        end = ZoneSum(off, wt) if wt is not None else None
+        exp[f[0]] = (tfmt(off), tfmt(end) if end is not None else None)
+        off = end
+    got = {k: v for k, v in rl.items()}
+    if any(kind != 'append' for f, width, kind in wl):
+        # the writer is not a plain sequence of appends (e.g. it fills pre-sized slots in place): this comparison cannot judge it
+        yield Ob('RF-N', 'cl03::signature#reader~writer', None, 'the reader takes e, s and v from the offsets at which the writer puts them', r[0],
+                 fact={'writer_events': [(f, kind) for f, width, kind in wl], 'reader': got}, expected='equal offsets')
+        return
+    ok = bool(exp) and all(got.get(f) is not None and got[f][0] == exp[f][0] for f in exp) and set(exp) == {'e', 's', 'v'}
+    # the last field takes the rest of the input; the fixed ones must also end where the writer ends them
+    ok = ok and all(got[f][1] == exp[f][1] for f in ('e', 's') if f in got and got[f] is not None)
+    yield Ob('RF-N', 'cl03::signature#reader~writer', ok, 'the reader takes e, s and v from the offsets at which the writer puts them', r[0],
+             fact={'writer': exp, 'reader': got}, expected='equal offsets')
